@@ -1,14 +1,22 @@
 package v030
 
 import (
-	"bytes"
+	"context"
 
 	"github.com/aergoio/aergo-lib/log"
 	"github.com/aergoio/aergo/v2/internal/network"
 	"github.com/aergoio/aergo/v2/p2p/p2pcommon"
+	"github.com/aergoio/aergo/v2/p2p/p2putil"
 	"github.com/aergoio/aergo/v2/types"
 	vf "github.com/aergoio/aergo/v2/zzvf"
 )
+
+// C18.c — handshake strictness of the legacy handshakers (wire versions 0.3.1 -> V030Handshaker, 0.3.2 ->
+// V032Handshaker, 0.3.3 -> V033Handshaker; all three are still in p2pcommon.AcceptedInboundVersions).
+//
+// As in p2p/v200: every job starts from a status that MATCHES the local view and lets exactly one field differ in an
+// arbitrary (symbolic) way; obligation: checkRemoteStatus(status) == nil <=> the differing field satisfies its
+// admission rule, plus the effects of acceptance / refusal. One job per field and per handshaker version.
 
 // ---- environment of the handshaker
 
@@ -23,16 +31,40 @@ func (m *vfVM) GetChainID(no types.BlockNo) *types.ChainID {
 	return m.local
 }
 
+// vfRW is the connection. Written messages are counted. ReadMsg is only executed by the native replay of the
+// direction jobs (the engine replaces receiveRemoteStatus, whose body is protobuf decoding, by vfReceive): it hands the
+// real receiveRemoteStatus the protobuf encoding of the same status.
 type vfRW struct {
 	p2pcommon.MsgReadWriter
-	written int
+	written  int
+	incoming *types.Status
 }
 
 func (w *vfRW) WriteMsg(msg p2pcommon.Message) error { w.written++; return nil }
 
+func (w *vfRW) ReadMsg() (p2pcommon.Message, error) {
+	b, err := p2putil.MarshalMessageBody(w.incoming)
+	if err != nil {
+		return nil, err
+	}
+	return p2pcommon.NewMessageValue(p2pcommon.StatusRequest, p2pcommon.NewMsgID(), p2pcommon.EmptyID, 1, b), nil
+}
+
 // vfSendGoAway replaces (*V030Handshaker).sendGoAway: the notice is protobuf-marshalled (outside the technique); what
 // matters here is that exactly one message goes out on the connection.
 func vfSendGoAway(h *V030Handshaker, msg string) { h.msgRW.WriteMsg(nil) }
+
+// vfSendLocal replaces (*V030Handshaker).sendLocalStatus (protobuf marshalling + one WriteMsg; the context is never
+// cancelled in these jobs).
+func vfSendLocal(h *V030Handshaker, ctx context.Context, st *types.Status) error {
+	return h.msgRW.WriteMsg(nil)
+}
+
+// vfReceive replaces (*V030Handshaker).receiveRemoteStatus (ReadMsg + protobuf decoding): the decoded status is the
+// harness's status object.
+func vfReceive(h *V030Handshaker, ctx context.Context) (*types.Status, error) {
+	return h.msgRW.(*vfRW).incoming, nil
+}
 
 // address strings offered to the handshake and their classification by network.CheckAddressType (net.ParseIP and a
 // regular expression, outside the technique): vfAddrType replaces it on exactly this pool, natively the real function
@@ -63,89 +95,314 @@ func vfChainID(tag string, l int) *types.ChainID {
 		Consensus: vf.Str(tag+".Consensus", l),
 	}
 	for i := 0; i < l; i++ {
-		vf.Assume(c.Magic[i] != '/') // F2 (C19.f) is a separate, recorded finding
+		vf.Assume(c.Magic[i] != '/') // a '/' inside the strings is refused by ChainID.Bytes (C19.f)
 		vf.Assume(c.Consensus[i] != '/')
 	}
 	return c
 }
 
-// C18.c (legacy wire versions): V033Handshaker.checkRemoteStatus accepts a remote status only if
-//
-//	the remote chain id decodes and Equals the local chain id for the remote best height,
-//	the sender address is an IP or a domain name, the announced peer id is the id of the connection and the genesis
-//	hash equals the local one;
-//
-// a status that agrees in all of these is accepted. Every refusal sends exactly one go-away.
-func VF_C18_c_v033() {
+type vfCA struct {
+	types.ChainAccessor
+	best *types.Block
+}
+
+func (c *vfCA) GetBestBlock() (*types.Block, error) { return c.best, nil }
+
+type vfActor struct {
+	p2pcommon.ActorService
+	ca *vfCA
+}
+
+func (s *vfActor) GetChainAccessor() types.ChainAccessor { return s.ca }
+
+type vfPM struct {
+	p2pcommon.PeerManager
+}
+
+func (p *vfPM) SelfMeta() p2pcommon.PeerMeta { return p2pcommon.PeerMeta{} }
+
+// what the three handshakers have in common
+type vfHS interface {
+	checkRemoteStatus(remotePeerStatus *types.Status) error
+	DoForInbound(ctx context.Context) (*p2pcommon.HandshakeResult, error)
+	DoForOutbound(ctx context.Context) (*p2pcommon.HandshakeResult, error)
+}
+
+var vfGenLens = [4]int{32, 31, 33, 64}
+
+type vfEnv struct {
+	ver     int // 30, 32, 33
+	hs      vfHS
+	base    *V030Handshaker
+	vm      *vfVM
+	rw      *vfRW
+	local   *types.ChainID
+	peerID  types.PeerID
+	genesis []byte
+	st      *types.Status
+}
+
+// vfMatching builds a handshaker of the given version with an arbitrary local view (chain id, genesis hash of genLen
+// bytes, id of the connection's peer) and a remote status that agrees with it in every checked field.
+func vfMatching(ver int, genLen int) *vfEnv {
 	l := vf.Param("strLen", 1)
-	local := vfChainID("local", l)
-	vm := &vfVM{local: local}
-	rw := &vfRW{}
-	peerID := types.PeerID(vf.Str("conn.peerID", 2))
-	genesis := vf.Bytes("local.genesis", 2)
-	h := &V033Handshaker{V032Handshaker: V032Handshaker{V030Handshaker: V030Handshaker{logger: log.NewLogger("vf"), peerID: peerID, msgRW: rw}, localGenesisHash: genesis}, vm: vm}
+	e := &vfEnv{ver: ver}
+	e.local = vfChainID("local", l)
+	e.vm = &vfVM{local: e.local}
+	e.rw = &vfRW{}
+	e.peerID = types.PeerID(vf.Str("conn.peerID", 2))
+	e.genesis = vf.Bytes("local.genesis", genLen)
+	best := &types.Block{Header: &types.BlockHeader{BlockNo: vf.U64("local.bestNo")}, Hash: vf.Bytes("local.bestHash", 32)}
+	b30 := V030Handshaker{pm: &vfPM{}, actor: &vfActor{ca: &vfCA{best: best}}, logger: log.NewLogger("vf"), peerID: e.peerID, chainID: e.local, msgRW: e.rw}
+	switch ver {
+	case 30:
+		h := &b30
+		e.hs, e.base = h, h
+	case 32:
+		h := &V032Handshaker{V030Handshaker: b30, localGenesisHash: e.genesis}
+		e.hs, e.base = h, &h.V030Handshaker
+	default:
+		// production builds it with chainID = vm.GetChainID(0) and asks vm again for the remote best height
+		h := &V033Handshaker{V032Handshaker: V032Handshaker{V030Handshaker: b30, localGenesisHash: e.genesis}, vm: e.vm}
+		e.hs, e.base = h, &h.V030Handshaker
+	}
+	cid, err := e.local.Bytes()
+	vf.Assume(err == nil)
+	e.st = &types.Status{
+		ChainID:       cid,
+		BestHeight:    vf.U64("remote.bestHeight"),
+		BestBlockHash: vf.Bytes("remote.bestHash", 32),
+		Genesis:       append([]byte{}, e.genesis...),
+		NoExpose:      vf.Bool("remote.noExpose"),
+		Sender: &types.PeerAddress{
+			Address: vfAddrPool[0],
+			PeerID:  []byte(e.peerID),
+			Role:    types.PeerRole_Watcher,
+		},
+	}
+	e.rw.incoming = e.st
+	return e
+}
 
-	st := &types.Status{
-		BestHeight: vf.U64("remote.bestHeight"),
-		Genesis:    vf.Bytes("remote.genesis", 2),
-		NoExpose:   vf.Bool("remote.noExpose"),
+// vfBytesEqual: a and b have the same length and the same content (term built without forking; the harness's own
+// definition of BYTE-EQUAL, independent of the comparison used by the code under test).
+func vfBytesEqual(a, b []byte) bool {
+	if len(a) != len(b) {
+		return false
 	}
-	switch vf.Choice("chainIDKind", 3) {
-	case 0: // the local id, re-encoded
-		b, err := local.Bytes()
-		vf.Assume(err == nil)
-		st.ChainID = b
-	case 1: // another well-formed chain id (may or may not coincide)
-		b, err := vfChainID("remote", l).Bytes()
-		vf.Assume(err == nil)
-		st.ChainID = b
-	case 2: // arbitrary short bytes
-		st.ChainID = vf.Bytes("remote.chainIDraw", [3]int{0, 6, 8}[vf.Choice("rawLen", 3)])
+	eq := true
+	for i := range a {
+		eq = vf.And(eq, a[i] == b[i])
 	}
-	st.BestBlockHash = vf.Bytes("remote.bestHash", 32-vf.Choice("hashShort", 2))
-	if vf.Choice("hasSender", 2) == 1 {
-		st.Sender = &types.PeerAddress{
-			Address: vfAddrPool[vf.Choice("addr", 4)],
-			PeerID:  []byte(vf.Str("remote.peerID", 2)),
-			Role:    types.PeerRole(vf.I32("remote.role")),
-		}
-		if vf.Choice("producers", 2) == 1 {
-			st.Sender.ProducerIDs = [][]byte{vf.Bytes("remote.producer", 2)}
-		}
-	}
+	return eq
+}
 
-	err := h.checkRemoteStatus(st)
+// vfHashID: what "the announced best block" becomes: the 32 bytes if well-formed, the zero id otherwise (0.3.x does
+// not refuse a malformed best block hash).
+func vfHashOK(got types.BlockID, announced []byte) bool {
+	if len(announced) != 32 {
+		return got == types.BlockID{}
+	}
+	return vfBytesEqual(got[:], announced)
+}
 
-	// specification, from the same primitives (built without forking)
-	rc := types.NewChainID()
-	decodeErr := rc.Read(st.ChainID)
-	chainOK := false
-	if decodeErr == nil {
-		chainOK = vf.And(vf.And(rc.Version == local.Version, rc.PublicNet == local.PublicNet),
-			vf.And(rc.MainNet == local.MainNet, vf.And(rc.Magic == local.Magic, rc.Consensus == local.Consensus)))
+func vfAccepted(e *vfEnv, ob string) {
+	vf.Assert(e.rw.written == 0, ob)
+	vf.Assert(e.base.remoteMeta.ID == e.peerID, ob)
+	vf.Assert(e.base.remoteNo == e.st.BestHeight, ob)
+	vf.Assert(vfHashOK(e.base.remoteHash, e.st.BestBlockHash), ob)
+	vf.Assert(e.base.remoteMeta.Hidden == e.st.NoExpose, ob)
+	if e.ver == 33 {
+		vf.Assert(len(e.vm.askedNo) == 1, ob)
+		vf.Assert(e.vm.askedNo[0] == e.st.BestHeight, ob) // the local chain id is the one for the REMOTE best height
 	}
-	hashOK := len(st.BestBlockHash) == 32
-	addrOK := st.Sender != nil && vfAddrType(st.Sender.Address) != network.AddressTypeError
-	idOK := false
-	agentOK := true
-	if st.Sender != nil {
-		idOK = string(st.Sender.PeerID) == string(peerID)
-		agentOK = vf.Or(st.Sender.Role != types.PeerRole_Agent, len(st.Sender.ProducerIDs) > 0)
-	}
-	genesisOK := bytes.Equal(genesis, st.Genesis)
-	_, _ = hashOK, agentOK // 0.3.x does not check the format of the best block hash and has no roles
-	want := vf.And(vf.And(chainOK, addrOK), vf.And(idOK, genesisOK))
-	vf.Reach("C18.c.v033")
-	vf.Assert((err == nil) == want, "C18.c.v033")
+}
+
+func vfVerdict(e *vfEnv, err error, want bool, ob string) {
+	vf.Reach(ob)
+	vf.Assert((err == nil) == want, ob)
 	if err == nil {
-		vf.Assert(rw.written == 0, "C18.c.v033")
-		vf.Assert(h.remoteMeta.ID == peerID, "C18.c.v033")
-		vf.Assert(h.remoteNo == st.BestHeight, "C18.c.v033")
-		vf.Assert(h.remoteMeta.Hidden == st.NoExpose, "C18.c.v033")
-		vf.Assert(len(vm.askedNo) == 1, "C18.c.v033")
-		vf.Assert(vm.askedNo[0] == st.BestHeight, "C18.c.v033")
+		vfAccepted(e, ob)
 	} else {
-		vf.Assert(rw.written == 1, "C18.c.v033")
+		vf.Assert(e.rw.written == 1, ob)
 	}
 	vf.Observe("ok", err == nil)
 }
+
+func vfOb(ver int, what string) string {
+	switch ver {
+	case 30:
+		return "C18.c.v030." + what
+	case 32:
+		return "C18.c.v032." + what
+	}
+	return "C18.c.v033." + what
+}
+
+// accept: the matching status is accepted, whatever the (common) genesis length, the sender address form and the
+// length of the best block hash (0.3.x does not check its format).
+func vfJobAccept(ver int) {
+	e := vfMatching(ver, vfGenLens[vf.Choice("genLen", 4)])
+	e.st.Sender.Address = vfAddrPool[vf.Choice("addr", 2)]
+	e.st.BestBlockHash = vf.Bytes("remote.bestHash2", [3]int{32, 31, 0}[vf.Choice("hashLen", 3)])
+	err := e.hs.checkRemoteStatus(e.st)
+	vfVerdict(e, err, true, vfOb(ver, "accept"))
+}
+
+// genesis: only the genesis field is arbitrary: local and remote genesis are byte strings of 31/32/33/64 bytes (remote
+// also empty) with arbitrary content. Accepted iff BYTE-EQUAL (same length, same bytes).
+//
+// Wire version 0.3.1 (V030Handshaker) has no genesis field and compares nothing: a peer that offers only 0.3.1 is
+// admitted with ANY genesis block (finding F-C18-1, recorded; the obligation is still decided outside that class).
+func vfJobGenesis(ver int) {
+	e := vfMatching(ver, vfGenLens[vf.Choice("genLen", 4)])
+	rl := [5]int{32, 31, 33, 64, 0}[vf.Choice("remoteGenLen", 5)]
+	e.st.Genesis = vf.Bytes("remote.genesis", rl)
+	err := e.hs.checkRemoteStatus(e.st)
+	same := vfBytesEqual(e.genesis, e.st.Genesis)
+	ob := vfOb(ver, "genesis")
+	if ver == 30 {
+		vf.Reach(ob)
+		vf.AssertKnown((err == nil) == same, ob, "F-C18-1-legacy-031-no-genesis-check", !same)
+		vf.Observe("ok", err == nil)
+		return
+	}
+	vfVerdict(e, err, same, ob)
+}
+
+// chainid: only the chain id differs: another well-formed id (arbitrary fields), or arbitrary raw bytes.
+// Accepted iff it decodes and every field equals the local id's.
+func vfJobChainID(ver int) {
+	e := vfMatching(ver, 32)
+	l := vf.Param("strLen", 1)
+	ob := vfOb(ver, "chainid")
+	if vf.Choice("chainIDKind", 2) == 0 {
+		r := vfChainID("remote", l)
+		b, err := r.Bytes()
+		vf.Assume(err == nil)
+		e.st.ChainID = b
+		want := vf.And(vf.And(r.Version == e.local.Version, r.PublicNet == e.local.PublicNet),
+			vf.And(r.MainNet == e.local.MainNet, vf.And(r.Magic == e.local.Magic, r.Consensus == e.local.Consensus)))
+		err = e.hs.checkRemoteStatus(e.st)
+		vfVerdict(e, err, want, ob)
+		return
+	}
+	full := 4 + 1 + 1 + 2*l + 1
+	e.st.ChainID = vf.Bytes("remote.chainIDraw", [4]int{0, 5, 6, full}[vf.Choice("rawLen", 4)])
+	err := e.hs.checkRemoteStatus(e.st)
+	rc := types.NewChainID()
+	want := false
+	if rc.Read(e.st.ChainID) == nil {
+		want = vf.And(vf.And(rc.Version == e.local.Version, rc.PublicNet == e.local.PublicNet),
+			vf.And(rc.MainNet == e.local.MainNet, vf.And(rc.Magic == e.local.Magic, rc.Consensus == e.local.Consensus)))
+	}
+	vfVerdict(e, err, want, ob)
+}
+
+// peerid: only the announced peer id is arbitrary (0..3 bytes against the 2-byte id of the connection).
+func vfJobPeerID(ver int) {
+	e := vfMatching(ver, 32)
+	e.st.Sender.PeerID = vf.Bytes("remote.peerID", vf.Choice("peerIDLen", 4))
+	err := e.hs.checkRemoteStatus(e.st)
+	vfVerdict(e, err, vfBytesEqual(e.st.Sender.PeerID, []byte(e.peerID)), vfOb(ver, "peerid"))
+}
+
+// addr: only the sender block differs: absent, or an address of each class.
+func vfJobAddr(ver int) {
+	e := vfMatching(ver, 32)
+	k := vf.Choice("addr", 5)
+	want := false
+	if k == 4 {
+		e.st.Sender = nil
+	} else {
+		e.st.Sender.Address = vfAddrPool[k]
+		want = k < 2
+	}
+	err := e.hs.checkRemoteStatus(e.st)
+	vfVerdict(e, err, want, vfOb(ver, "addr"))
+}
+
+// ---- both directions: the complete DoForInbound / DoForOutbound with the wire codec replaced.
+
+// vfOneOff makes one field of the matching status arbitrary; returns the admission rule for that field.
+func vfOneOff(e *vfEnv) bool {
+	nf := 5
+	if e.ver == 30 {
+		nf = 4 // the genesis field does not exist in 0.3.1 (see vfJobGenesis)
+	}
+	switch vf.Choice("field", nf) {
+	case 1:
+		e.st.Sender.PeerID = vf.Bytes("remote.peerID", 2)
+		return vfBytesEqual(e.st.Sender.PeerID, []byte(e.peerID))
+	case 2: // chain id: one field of the local id changed
+		r := *e.local
+		r.Version = vf.I32("remote.Version")
+		b, err := r.Bytes()
+		vf.Assume(err == nil)
+		e.st.ChainID = b
+		return r.Version == e.local.Version
+	case 3:
+		e.st.Sender.Address = vfAddrPool[2]
+		return false
+	case 4: // genesis: same length with arbitrary content, or one byte longer / shorter with arbitrary content
+		n := len(e.genesis) + vf.Choice("genDelta", 3) - 1
+		e.st.Genesis = vf.Bytes("remote.genesis", n)
+		return vfBytesEqual(e.genesis, e.st.Genesis)
+	}
+	return true
+}
+
+func vfDirection(ver int, inbound bool) {
+	e := vfMatching(ver, vfGenLens[vf.Choice("genLen", 2)])
+	want := vfOneOff(e)
+	ob := vfOb(ver, "outbound")
+	if inbound {
+		ob = vfOb(ver, "inbound")
+	}
+	var res *p2pcommon.HandshakeResult
+	var err error
+	if inbound {
+		res, err = e.hs.DoForInbound(context.Background())
+	} else {
+		res, err = e.hs.DoForOutbound(context.Background())
+	}
+	vf.Reach(ob)
+	vf.Assert((res != nil) == (err == nil), ob)
+	vf.Assert((err == nil) == want, ob)
+	if err == nil {
+		vf.Assert(res.Meta.ID == e.peerID, ob)
+		vf.Assert(res.BestBlockNo == e.st.BestHeight, ob)
+		vf.Assert(vfHashOK(res.BestBlockHash, e.st.BestBlockHash), ob)
+		vf.Assert(res.Hidden == e.st.NoExpose, ob)
+		vf.Assert(e.rw.written == 1, ob) // exactly the local status
+	} else if inbound {
+		vf.Assert(e.rw.written == 1, ob) // the go-away and nothing else: no local status for a refused peer
+	} else {
+		vf.Assert(e.rw.written == 2, ob) // local status (sent first), then the go-away
+	}
+	vf.Observe("ok", err == nil)
+}
+
+func VF_C18_c30_accept()   { vfJobAccept(30) }
+func VF_C18_c30_genesis()  { vfJobGenesis(30) }
+func VF_C18_c30_chainid()  { vfJobChainID(30) }
+func VF_C18_c30_peerid()   { vfJobPeerID(30) }
+func VF_C18_c30_addr()     { vfJobAddr(30) }
+func VF_C18_c30_inbound()  { vfDirection(30, true) }
+func VF_C18_c30_outbound() { vfDirection(30, false) }
+
+func VF_C18_c32_accept()   { vfJobAccept(32) }
+func VF_C18_c32_genesis()  { vfJobGenesis(32) }
+func VF_C18_c32_chainid()  { vfJobChainID(32) }
+func VF_C18_c32_peerid()   { vfJobPeerID(32) }
+func VF_C18_c32_addr()     { vfJobAddr(32) }
+func VF_C18_c32_inbound()  { vfDirection(32, true) }
+func VF_C18_c32_outbound() { vfDirection(32, false) }
+
+func VF_C18_c33_accept()   { vfJobAccept(33) }
+func VF_C18_c33_genesis()  { vfJobGenesis(33) }
+func VF_C18_c33_chainid()  { vfJobChainID(33) }
+func VF_C18_c33_peerid()   { vfJobPeerID(33) }
+func VF_C18_c33_addr()     { vfJobAddr(33) }
+func VF_C18_c33_inbound()  { vfDirection(33, true) }
+func VF_C18_c33_outbound() { vfDirection(33, false) }
